@@ -6,8 +6,8 @@ CONSTANTS
   Alpha = {97, 32, 37, 63, 35, 59, 43, 233, 8364, 10, 50, 46, 45}
   MaxText = 1
   Shapes = {22, 23, 24, 25}
-  ConvIds = {1, 5, 6, 7, 8, 9, 10, 12, 14}
-  Binds = {11, 22, 52, 83}
+  ConvIds = {1, 5, 7, 8, 9, 10, 12}
+  Binds = {11, 52, 83}
 INIT Init
 NEXT Next
 INVARIANT Laws
